@@ -495,3 +495,61 @@ h!(h_c13_de_layout_3, 7, de_layout(3));
 h!(h_c13_de_layout_2, 6, de_layout(2));
 // @h tier=thorough bound="y = 1: population of 0" unwind=5 cost=9 mem=28 timeout=1800
 h!(h_c13_de_layout_0, 5, de_layout(0));
+
+// ---- permutation mutation components through a State (one individual, 3 positions) ----------------------
+
+fn perm_state(budget: u32) -> (State<'static, PermP>, [usize; 3]) {
+    // an arbitrary permutation of 0..3
+    let a = sym::upto(2) as usize;
+    let b = sym::upto(2) as usize;
+    sym::assume(a != b);
+    let c = 3 - a - b;
+    let mut pops = Populations::<PermP>::new();
+    pops.push(vec![Individual::new(vec![a, b, c], obj(sym::legal_f64()))]);
+    let mut s: State<PermP> = State::new();
+    s.insert(sym_random(budget));
+    s.insert(pops);
+    (s, [a, b, c])
+}
+fn still_permutation(s: &State<'static, PermP>) {
+    let p = s.populations();
+    assert!(p.len() == 1 && p.current().len() == 1, "mutation keeps the stack and the population size");
+    let v = p.current()[0].solution();
+    assert!(v.len() == 3, "mutation keeps the dimension");
+    assert!(v[0] < 3 && v[1] < 3 && v[2] < 3 && v[0] != v[1] && v[0] != v[2] && v[1] != v[2], "a permutation operator returns a permutation of the same elements");
+}
+/// `translocate_slice` with symbolic range and index is intractable (ptr_rotate: 1200+ unwindings
+/// before any verdict); its functional correctness is decided by the differential harnesses above
+/// for every shape of length 4. In the component harnesses it is replaced by a model that enforces
+/// exactly the helper's documented contract (the four `requires`/assert conditions) and leaves the
+/// slice as it is — what is decided here is that the COMPONENT calls it with arguments inside
+/// that contract and neither errs nor panics otherwise. Counterexamples replay against the real helper.
+#[cfg(kani)]
+fn translocate_contract_model<D: 'static>(permutation: &mut [D], range: std::ops::Range<usize>, index: usize) {
+    assert!(index < permutation.len(), "translocate_slice requires index < len");
+    assert!(range.start < permutation.len(), "translocate_slice requires range.start < len");
+    assert!(range.end < permutation.len(), "translocate_slice requires range.end < len");
+    assert!(range.start <= range.end && index + (range.end - range.start) <= permutation.len(), "translocate_slice: moving the slice must stay in bounds");
+}
+macro_rules! perm_mut {
+    ($name:ident, $budget:expr, $uw:expr, $c:expr) => {
+        #[cfg_attr(kani, kani::proof)]
+        #[cfg_attr(kani, kani::unwind($uw))]
+        #[cfg_attr(kani, kani::stub(mahf::components::mutation::functional::translocate_slice, translocate_contract_model))]
+        pub fn $name() {
+            let (mut s, _orig) = perm_state($budget);
+            let c = $c;
+            let r = Component::<PermP>::execute(&c, &PermP(3), &mut s);
+            assert!(r.is_ok(), "a permutation mutation neither errs nor panics on a valid population");
+            still_permutation(&s);
+            vcover!(true, "reached");
+            std::mem::forget(s);
+        }
+    };
+}
+// @h tier=quick bound="InsertionMutation, 1 individual, 3 positions, all draw sequences within 4 draws; translocate_slice replaced by its contract" unwind=6 cost=9 mem=44 timeout=1500
+perm_mut!(h_c13_mut_insertion, 4, 6, mahf::components::mutation::common::InsertionMutation::from_params());
+// @h tier=quick bound="InversionMutation, 1 individual, 3 positions, all draw sequences within 4 draws" unwind=6 cost=9 mem=44 timeout=1500
+perm_mut!(h_c13_mut_inversion, 4, 6, mahf::components::mutation::common::InversionMutation::from_params());
+// @h tier=quick bound="TranslocationMutation, 1 individual, 3 positions, all draw sequences within 5 draws; translocate_slice replaced by its contract" unwind=6 cost=9 mem=44 timeout=1800
+perm_mut!(h_c13_mut_translocation, 5, 6, mahf::components::mutation::common::TranslocationMutation::from_params());
